@@ -3,13 +3,10 @@ package main
 import (
 	"math/rand"
 
-	"github.com/theQRL/go-qrllib/xmss"
+	"verifharness/pathkey"
 )
 
-// pathKey assembles, from the library's own building blocks (genLeafWOTS, validateAuthPath, PRF, hMsg,
-// wotsSign), a valid (message, signature, public key) triple for a "key" that consists of ONE
-// authentication path of h nodes: no tree is built, so every height 1..30 (odd ones too) costs the
-// same. The root is whatever the path hashes to; the descriptor declares `declared`.
+// pathTriple / pathKey: see verifharness/pathkey (shared with concdrive)
 type pathTriple struct {
 	h, hf, idx int
 	msg, sig   []byte
@@ -17,35 +14,6 @@ type pathTriple struct {
 }
 
 func pathKey(r *rand.Rand, h, hf int, idx uint32, declared int, msgLen int) pathTriple {
-	skSeed, skPRF, pubSeed := make([]byte, 32), make([]byte, 32), make([]byte, 32)
-	r.Read(skSeed)
-	r.Read(skPRF)
-	r.Read(pubSeed)
-	f := xmss.HashFunction(hf)
-	leaf := make([]byte, 32)
-	xmss.VerifGenLeaf(f, leaf, skSeed, pubSeed, uint32(h), idx)
-	auth := make([]byte, 32*h)
-	r.Read(auth)
-	root := make([]byte, 32)
-	xmss.VerifValidateAuthPath(f, root, leaf, idx, auth, uint32(h), pubSeed)
-	var pk [67]uint8
-	pk[0] = uint8(hf)
-	pk[1] = uint8(declared/2) & 0x0f
-	copy(pk[3:35], root)
-	copy(pk[35:], pubSeed)
-	msg := make([]byte, msgLen)
-	r.Read(msg)
-	idx32 := make([]byte, 32)
-	idx32[28], idx32[29], idx32[30], idx32[31] = byte(idx>>24), byte(idx>>16), byte(idx>>8), byte(idx)
-	R := make([]byte, 32)
-	xmss.VerifPRF(f, R, idx32, skPRF)
-	hashKey := append(append(append([]byte{}, R...), root...), idx32...)
-	mh := make([]byte, 32)
-	xmss.VerifHMsg(f, mh, msg, hashKey)
-	w := xmss.VerifWOTSSign(f, mh, skSeed, pubSeed, idx)
-	sig := []byte{byte(idx >> 24), byte(idx >> 16), byte(idx >> 8), byte(idx)}
-	sig = append(sig, R...)
-	sig = append(sig, w...)
-	sig = append(sig, auth...)
-	return pathTriple{h, hf, int(idx), msg, sig, pk}
+	t := pathkey.Make(r, h, hf, idx, declared, msgLen)
+	return pathTriple{t.H, t.Hf, t.Idx, t.Msg, t.Sig, t.Pk}
 }
